@@ -259,6 +259,16 @@ namespace ValueFlow
         return false;
     }
 
+    // the result of the conditional operator has the common type of its second and third operand
+    static void setTernaryValue(Token* ternary, Value value, const Settings& settings)
+    {
+        const ValueType* vt = ternary->valueType();
+        if (vt && vt->isIntegral() && vt->pointer == 0 && value.isIntValue() && !value.isImpossible())
+            setTokenValueCast(ternary, *vt, std::move(value), settings);
+        else
+            setTokenValue(ternary, std::move(value), settings);
+    }
+
     /** set ValueFlow value and perform calculations if possible */
     void setTokenValue(Token* tok,
                        Value value,
@@ -465,7 +475,7 @@ namespace ValueFlow
                         return;
                     const std::list<Value> &values = op->values();
                     if (std::find(values.cbegin(), values.cend(), value) != values.cend())
-                        setTokenValue(parent, std::move(value), settings);
+                        setTernaryValue(parent, std::move(value), settings);
                 }
             } else if (!value.isImpossible()) {
                 // is condition only depending on 1 variable?
@@ -487,7 +497,7 @@ namespace ValueFlow
                 value.conditional = true;
                 value.changeKnownToPossible();
 
-                setTokenValue(parent, std::move(value), settings);
+                setTernaryValue(parent, std::move(value), settings);
             }
         }
 
@@ -498,7 +508,7 @@ namespace ValueFlow
                 : parent->astOperand2()->astOperand1()->values());
 
             for (const Value &v : values)
-                setTokenValue(parent, v, settings);
+                setTernaryValue(parent, v, settings);
         }
 
         // Offset of non null pointer is not null also
